@@ -18,7 +18,8 @@
 (*                                                                         *)
 (* The code's oddities are kept as switches so that TLC shows them (the    *)
 (* values of the code before its repair, commits f0aff97 / af855f8 of the  *)
-(* repository; the MC_defect_* configurations set them and must fail):     *)
+(* repository, and 1e47c79 for the container's ReadFrom; the MC_defect_*   *)
+(* configurations set them and must fail):                                 *)
 (*   ClearOnFail = FALSE : a payload that decoded but failed verification  *)
 (*       stays in the response buffer (samples[i]) -- returned next to the  *)
 (*       error when the remaining attempts bring no payload                *)
